@@ -54,6 +54,8 @@ class Cfg:
         self.pad_options = True          # FixedStringPad* options
         self.u64_prefix = True
         self.unique_inline = True
+        self.meta_alias = True           # `Entry NewName` reference declarations inside MetaData
+        self.typeless = True             # length / checksum fields written without a type (named after a MetaData entry)
         self.far_length = True           # fields between a length field and its target
         self.inline_rich = True          # inline objects may hold references, match fields, MetaData-typed fields
         self.meta_pad_attr = True        # padding attributes on MetaData-typed fixed strings
@@ -144,6 +146,15 @@ def gen_program(rng, cfg=None):
             f["doc"] = "`%s`" % nm  # MetaData entries need a doc string (the visitor dereferences it)
             entries.append(f)
             metas.append(f)
+        if cfg.meta_alias and rng.random() < 0.35:
+            # a reference declaration: `<earlier entry> <new name> `doc`,`
+            src = rng.choice(entries)
+            al = dict(src)
+            al["name"] = rng.choice(["Alias", "Also", "Twin"]) + src["name"]
+            al["alias_of"] = src["name"]
+            al["doc"] = "`%s`" % al["name"]
+            entries.append(al)
+            metas.append(al)
         prog["metas"].append({"name": "Types", "entries": entries})
     npk = rng.randint(1, cfg.max_packets)
     pnames = _names(rng, PKT_NAMES, npk)
@@ -218,6 +229,20 @@ def gen_program(rng, cfg=None):
                     f["tag"] = rng.randint(1, 999)
                 fields.append(f)
         _dedupe(fields)
+        if cfg.typeless and metas:
+            ints = [m for m in metas if m["kind"] == "scalar" and m["type"] in INTS and not m.get("repeat")]
+            used = {field_name(x) for x in fields} | {x.get("meta") for x in fields if x["kind"] == "metaref" and not x.get("named")}
+            for f in fields:
+                if f["kind"] in ("length", "checksum") and ints and rng.random() < 0.3:
+                    m = rng.choice(ints)
+                    if m["name"] in used:
+                        continue
+                    old_name = f["name"]
+                    f["name"], f["type"], f["typeless"] = m["name"], m["type"], True
+                    used.add(m["name"])
+                    for g in fields:     # nothing refers to a length / checksum field by name, but keep it consistent
+                        if g.get("target") == old_name:
+                            g["target"] = m["name"]
         prog["packets"].append({"name": pn, "root": i == 0, "fields": fields})
     return prog
 
@@ -339,14 +364,15 @@ def render_field(f, L, ind, with_attrs=True):
     if k == "inline":
         body = "".join(L.nl(ind + 1) + render_field(x, L, ind + 1, False) for x in f["fields"])
         return s + rep + f["name"] + L.sp() + "{" + body + L.nl(ind) + "},"
+    ty = "" if f.get("typeless") else f.get("type", "") + L.sp()
     if k == "length":
         if f["prefixed"]:
-            return s + f["type"] + L.sp() + f["name"] + doc + ","
-        return s + f["type"] + L.sp() + f["name"] + L.sp() + "@lengthOf(%s)" % f["target"] + doc + ","
+            return s + ty + f["name"] + doc + ","
+        return s + ty + f["name"] + L.sp() + "@lengthOf(%s)" % f["target"] + doc + ","
     if k == "checksum":
         if f["prefixed"]:
-            return s + f["type"] + L.sp() + f["name"] + doc + ","
-        return s + f["type"] + L.sp() + f["name"] + L.sp() + "@calculatedFrom(%s)" % f["algo"] + doc + ","
+            return s + ty + f["name"] + doc + ","
+        return s + ty + f["name"] + L.sp() + "@calculatedFrom(%s)" % f["algo"] + doc + ","
     if k == "match":
         body = ""
         for p in f["pairs"]:
@@ -367,7 +393,9 @@ def render(prog, L=None):
         body = "".join(L.nl(1) + "%s%s=%s%s;" % (k, L.sp(), L.sp(), v) for k, v in prog["options"])
         parts.append("options" + L.sp() + "{" + body + L.nl(0) + "}")
     for m in prog["metas"]:
-        body = "".join(L.nl(1) + render_field(e, L, 1, False) for e in m["entries"])
+        body = "".join(L.nl(1) + (render_field(e, L, 1, False) if not e.get("alias_of") else
+                                  e["alias_of"] + L.sp() + e["name"] + ((L.sp() + e["doc"]) if e.get("doc") else "") + ",")
+                       for e in m["entries"])
         parts.append("MetaData" + L.sp() + m["name"] + L.sp() + "{" + body + L.nl(0) + "}")
     for p in prog["packets"]:
         body = "".join(L.nl(1) + render_field(f, L, 1) for f in p["fields"])
